@@ -383,7 +383,7 @@ def materialise(case):
         os.chmod(p, 0o644 if rd else 0)
 
 
-def run_real(pdsh, case, use_exec=False):
+def run_real(pdsh, case, use_exec=False, attempt=0):
     materialise(case)
     env = ["env", "-i", "PATH=/usr/bin:/bin"] + (["WCOLL=" + case["env"]] if case["env"] is not None else [])
     wopts = []
@@ -413,6 +413,10 @@ def run_real(pdsh, case, use_exec=False):
             ranked.sort(key=lambda x: x[0])
             hosts = [h for _, h in ranked]
             if [r for r, _ in ranked] != list(range(len(ranked))):
+                # (pdsh's own fanout defect can put several commands in flight under load; not this property's)
+                if attempt < 2:
+                    shutil.rmtree(case["casedir"], ignore_errors=True)
+                    return run_real(pdsh, case, use_exec=True, attempt=attempt + 1)
                 hosts = ["<garbled exec output>"] + hosts
         else:
             last = out[-1] if out else ""
